@@ -17,6 +17,8 @@ import mps_gen as G  # noqa: E402
 import c07  # noqa: E402
 import c09_addblocks  # noqa: E402
 import c09_swapsign  # noqa: E402
+import c09_cover  # noqa: E402
+import c09_ext  # noqa: E402
 from common import coq_lit, Nat  # noqa: E402
 
 TOL = 5e-9
@@ -287,17 +289,57 @@ def apply_term(vec, S, term, autoJW=True):
     return v, njw
 
 
+def swap_factor(pa, pb, how):
+    """diagonal factor (len(pa), len(pb)) the documented swap operator multiplies before transposing the two sites:
+    how = 'auto' (fermionic sign), None / 'plain' (nothing), 'autoInv' (sign and (-i)^n per site; the string option
+    falls back to the plain transposition unless both sites have odd states), 'array:autoInv' (explicit operator of the
+    docstring: always with the phases)"""
+    pa, pb = np.asarray(pa), np.asarray(pb)
+    if how in (None, 'plain'):
+        return np.ones((len(pa), len(pb)), dtype=complex)
+    sg = (1. - 2. * np.outer(pa, pb)).astype(complex)
+    if how == 'auto':
+        return sg
+    if how == 'autoInv' and not (pa.any() and pb.any()):
+        return np.ones((len(pa), len(pb)), dtype=complex)
+    return sg * np.outer((-1.j) ** pa, (-1.j) ** pb)
+
+
+def swap_how(op):
+    so = op.get('swap_op', 'auto')
+    if isinstance(so, dict):
+        return 'array:autoInv' if so['array'] == 'autoInv' else so['array']
+    return so
+
+
 class FRef:
-    def __init__(self, vec, kinds, SI):
+    """dense reference of a finite chain (axes = sites) or of a segment (nvirt=2: axes = sites, then the two outer
+    virtual legs in their ORIGINAL bases, which no transformation touches)"""
+
+    def __init__(self, vec, kinds, SI, nvirt=0):
         self.vec = np.array(vec, dtype=complex)       # the state including its norm
         self.kinds = list(kinds)
         self.SI = SI
+        self.nvirt = nvirt
         self.sign_free = False                        # documented loss of a global sign (JW string via charges)
         self.trunc = None
         self.norm_in_tensors = False                  # canonicalize=False: the change of norm stays in the tensors
+        self.zero_S = False                           # exactly zero singular values were appended (enlarge_chi ...)
+        self.grouped = 1
+        self.reseed = None
 
     def S(self):
         return G.Sites(self.kinds, self.SI)
+
+    def clone(self):
+        c = FRef(self.vec, self.kinds, self.SI, self.nvirt)
+        for k in ('sign_free', 'norm_in_tensors', 'zero_S', 'grouped'):
+            setattr(c, k, getattr(self, k))
+        if self.norm_in_tensors:
+            c.frozen_norm = self.frozen_norm
+        if getattr(self, 'not_canonical', False):
+            c.not_canonical = True
+        return c
 
     def set_total(self, new, renormalize, norm_before):
         self.raw_ratio = np.linalg.norm(new) / max(1e-300, norm_before)     # |O psi| / |psi| before renormalising
@@ -307,6 +349,15 @@ class FRef:
         else:
             self.vec = new
 
+    def pair_swap(self, a, b, how):
+        """exchange the neighbouring sites a < b = a+1 with the documented swap operator"""
+        S = self.S()
+        f = swap_factor(S.par[a], S.par[b], how)
+        shp = [1] * self.vec.ndim
+        shp[a], shp[b] = f.shape
+        self.vec = np.swapaxes(self.vec * f.reshape(shp), a, b)
+        self.kinds[a], self.kinds[b] = self.kinds[b], self.kinds[a]
+
     def apply(self, op, D_other=None):
         """returns None or a string describing why the op must have raised"""
         t = op['op']
@@ -314,9 +365,10 @@ class FRef:
         L = len(self.kinds)
         nb = np.linalg.norm(self.vec)
         self.trunc = None
+        self.reseed = None
         self.raw_ratio = 1.
         if t == 'apply_local_op':
-            i = op['i']
+            i = op['i'] % L
             if 'name' in op:
                 m = S.op(i, op['name'])
                 v = G.apply_on(self.vec, m, [i])
@@ -327,22 +379,34 @@ class FRef:
                 m = cplx_mat(op['mat'])
                 v = G.apply_on(self.vec, m, list(range(i, i + op['n'])))
             self.set_total(v, op.get('renormalize', False), nb)
+            uni = op.get('unitary')
+            if uni is None:
+                uni = is_unitary(m)
+            if not uni:
+                self.canonicalised()
         elif t == 'apply_product_op':
             v = self.vec
+            lst = [op['single']] if 'single' in op else op['ops']
+            uni = op.get('unitary')
             for i in range(L):                        # documented: ops[i % len(ops)] acts on site i, NO JW strings
-                o = op['ops'][i % len(op['ops'])]
+                o = lst[i % len(lst)]
                 if o == 'Id':
                     continue
                 m = S.op(i, o) if isinstance(o, str) else cplx_mat(o)
+                if uni is None and not is_unitary(m):
+                    uni = False
                 v = G.apply_on(v, m, [i])
             self.set_total(v, op.get('renormalize', False), nb)
+            if not uni:
+                self.canonicalised()
         elif t == 'apply_local_term':
             off = op.get('i_offset', 0)               # documented: offset added to the site indices of the term
-            v, njw = apply_term(self.vec, S, [(name, i + off) for name, i in op['term']], op.get('autoJW', True))
+            v, njw = apply_term(self.vec, S, [(name, (i + off) % L) for name, i in op['term']], op.get('autoJW', True))
             if njw % 2 == 1:
                 self.sign_free = True
             if op.get('canonicalize', True):
                 self.set_total(v, op.get('renormalize', False), nb)
+                self.canonicalised()
             else:                                     # `renormalize` is documented to be ignored; no canonical form
                 self.vec = v
                 self.raw_ratio = np.linalg.norm(v) / max(1e-300, nb)
@@ -350,111 +414,383 @@ class FRef:
                 if not self.norm_in_tensors:
                     self.norm_in_tensors = True
                     self.frozen_norm = nb
+        elif t == 'canonical_form':
+            if self.norm_in_tensors:
+                if op.get('renormalize', True):
+                    self.vec = self.vec / max(1e-300, nb) * self.frozen_norm
+                self.norm_in_tensors = False
+            self.canonicalised()
         elif t == 'swap_sites':
-            i = op['i']
-            perm = list(range(L))
-            perm[i], perm[i + 1] = i + 1, i
-            par = S.par if op.get('swap_op', 'auto') == 'auto' else [np.zeros_like(p) for p in S.par]
-            self.vec = G.permute_state(self.vec, perm, par)
-            self.kinds[i], self.kinds[i + 1] = self.kinds[i + 1], self.kinds[i]
+            i = op['i'] % L
+            self.pair_swap(i, i + 1, swap_how(op))
+            if op.get('trunc_class') == 'truncating':
+                self.trunc = 'swap'
         elif t == 'permute_sites':
-            perm = op['perm']
-            self.vec = G.permute_state(self.vec, perm, S.par)
-            new = [None] * L
-            for a, p in enumerate(perm):
-                new[p] = self.kinds[a]
-            self.kinds = new
+            perm = list(op['perm'])
+            how = swap_how(op)
+            done = False                              # (every inverted pair is exchanged exactly once by any sorting
+            while not done:                           #  with adjacent transpositions of inverted neighbours)
+                done = True
+                for i in range(L - 1):
+                    if perm[i] > perm[i + 1]:
+                        self.pair_swap(i, i + 1, how)
+                        perm[i], perm[i + 1] = perm[i + 1], perm[i]
+                        done = False
+            if op.get('trunc_class') == 'truncating':
+                self.trunc = 'swap'
         elif t == 'add':
-            self.vec = cplx(op['alpha']) * self.vec + cplx(op['beta']) * D_other['vec'] / np.linalg.norm(D_other['vec']) * op.get('other_norm', 1.0)
+            ox = op.get('other_x')
+            if ox == 'self':
+                ov = self.vec
+            elif ox is not None:
+                c = self.clone()
+                for o2 in ox['fork_ops']:
+                    c.apply(o2)
+                ov = c.vec
+            else:
+                ov = D_other['vec'].reshape(D_other['vec'].shape + (1,) * self.nvirt)
+                ov = ov / np.linalg.norm(ov) * op.get('other_norm', 1.0)
+            self.vec = cplx(op['alpha']) * self.vec + cplx(op['beta']) * ov
+            self.canonicalised()
         elif t == 'spatial_inversion':
-            self.vec = np.transpose(self.vec, list(range(L))[::-1])
+            ax = list(range(L))[::-1] + ([L + 1, L] if self.nvirt else [])
+            self.vec = np.transpose(self.vec, ax)
             self.kinds = self.kinds[::-1]
         elif t in ('compress_svd', 'compress'):
-            self.trunc = True
-        # convert_form, group_sites+group_split, enlarge_chi: the state is unchanged
+            self.trunc = 'variational' if op.get('method') == 'variational' else True
+            self.canonicalised()
+        elif t == 'group_sites':
+            self.grouped = op.get('n', 2)
+        elif t == 'get_grouped_mps':
+            self.grouped = op['n']
+        elif t == 'group_split':
+            self.grouped = 1
+            if op.get('trunc_class') in ('truncating', 'default') or 'trunc' not in op:
+                self.trunc = 'split'
+        elif t in ('enlarge_chi', 'subspace_expansion'):
+            self.zero_S = True
+        elif t in ('perturb', 'extract_segment', 'extract_enlarged_segment'):
+            self.reseed = t
+        # convert_form, gauge_total_charge, copy: the state is unchanged
+
+    def canonicalised(self):
+        """the operation ends with canonical_form: zero singular values are gone, the labels are truthful again"""
+        self.zero_S = False
+        if not self.norm_in_tensors:
+            self.not_canonical = False
 
 
 def cplx_mat(m):
     return np.array(m[0]) + 1j * np.array(m[1])
 
 
+def check_enlarge_perms(A, prev_kk, prev_o, kk, o, ex, finite, failf):
+    """documented return value of enlarge_chi: new_S = concatenate(old_S, zeros)[perm] on every enlarged bond"""
+    nS = o['nS']
+    for b, perm in enumerate(ex['perms']):
+        bb = b if (finite or b < nS) else 0
+        n_extra = ex['extra_len'][bb] if bb < len(ex['extra_len']) else 0
+        if perm is None:
+            if n_extra:
+                failf('bond %d was enlarged by %d but the returned permutation is None' % (b, n_extra))
+            continue
+        old = A.get('%s_S%d' % (prev_kk, bb))
+        new = A.get('%s_S%d' % (kk, bb))
+        if old is None or new is None:
+            continue
+        want = np.concatenate([old, np.zeros(n_extra)])
+        if len(perm) != len(want) or sorted(perm) != list(range(len(want))):
+            failf('returned permutation of bond %d is not a permutation of %d entries: %s' % (b, len(want), perm))
+            continue
+        want = want[np.array(perm, dtype=int)]
+        if new.shape != want.shape or np.max(np.abs(new - want)) > 1e-13:
+            failf('bond %d: stored singular values %s are not concatenate(old_S, zeros(%d))[returned perm] = %s' % (
+                b, np.round(new, 6).tolist(), n_extra, np.round(want, 6).tolist()))
+
+
+def check_gauge(op, ex, S, prev_o, failf):
+    """documented effect of gauge_total_charge on the charge bookkeeping (the state itself is compared densely)"""
+    q = op.get('qtotal')
+    if q is not None and not (q and isinstance(q[0], list)):
+        if ex['qtotal_after'] != S.valid(q):
+            failf('get_total_charge() = %s after gauge_total_charge(qtotal=%s)' % (ex['qtotal_after'], q))
+        if any(any(x) for x in ex['B_qtotal'][:-1]):
+            failf('a single qtotal is documented to sit on the last tensor; tensor charges %s' % ex['B_qtotal'])
+    elif q is not None:
+        if [S.valid(x) for x in q] != [S.valid(x) for x in ex['B_qtotal']]:
+            failf('tensor charges %s after gauge_total_charge(qtotal=%s)' % (ex['B_qtotal'], q))
+    elif op.get('vL_leg') is not None and op.get('vR_leg') is not None and prev_o is not None and 'qtotal' in prev_o:
+        want = S.valid([a + b + c for a, b, c in zip(prev_o['qtotal'], op['vL_leg'], op['vR_leg'])])
+        if ex['qtotal_after'] != want:
+            failf('total charge %s after gauging both outer legs (shifts %s, %s) of a state with total charge %s; expected %s' % (
+                ex['qtotal_after'], op['vL_leg'], op['vR_leg'], prev_o['qtotal'], want))
+    elif q is None and 'qtotal' in op and op.get('vL_leg') is None and op.get('vR_leg') is None:
+        if any(ex['qtotal_after']):
+            failf('get_total_charge() = %s after gauge_total_charge(qtotal=None): documented default 0' % ex['qtotal_after'])
+
+
+def rdm_axes(vec, keep):
+    """reduced density matrix of a dense tensor on the axes `keep` (trace 1)"""
+    th = np.moveaxis(vec, keep, range(len(keep)))
+    D = int(np.prod(th.shape[:len(keep)]))
+    M = th.reshape(D, -1)
+    rho = M @ M.conj().T
+    return rho / np.trace(rho)
+
+
+def check_reseed(ref, prev_vec, prev_kinds, prev_nvirt, op, ex, cur, o, A, kk, SI, failf):
+    """operations whose result is not a function of the dense state alone: compare what the documentation fixes,
+    return the reference that continues from the state of the run (None: stop)"""
+    t = op['op']
+    nrm_prev = np.linalg.norm(prev_vec)
+    if t == 'perturb':
+        new = ref.clone()
+        if cur.size != prev_vec.size:
+            failf('the dense state has %d entries after perturb, %d before' % (cur.size, prev_vec.size))
+            return None
+        new.vec = cur.reshape(prev_vec.shape)
+        if abs(np.linalg.norm(cur) - nrm_prev) > 1e-7 * nrm_prev:
+            failf('random unitaries changed the norm of the state: %.10f -> %.10f' % (nrm_prev, np.linalg.norm(cur)))
+        if abs(abs(cplx(o['norm'])) - np.linalg.norm(cur)) > 1e-7 * nrm_prev:
+            failf('psi.norm = %r, the dense state has norm %r' % (o['norm'], np.linalg.norm(cur)))
+        S = ref.S()
+        a, b = sector_support(prev_vec, S), sector_support(new.vec, S)
+        if a is not None and not b <= a:
+            failf('charge-conserving random unitaries moved weight into the charge sectors %s (before: %s)' % (sorted(b - a), sorted(a)))
+        if ex.get('dtype_before') == 'f' and ex.get('dtype_after') != 'f':
+            failf('a real MPS is documented to be perturbed by real orthogonal matrices, dtype kind after: %s' % ex.get('dtype_after'))
+        canon = op.get('canonicalize')
+        if canon is None:
+            canon = not op.get('close_1', True)
+        if canon:
+            new.canonicalised()
+            if o.get('norm_test', 0) > 1e-7:
+                failf('norm_test() = %.2e after perturb(canonicalize=True)' % o['norm_test'])
+        else:
+            new.not_canonical = True
+        return new
+    if t == 'extract_segment':
+        first, last = op['first'], op['last']
+        L0 = len(prev_kinds)
+        kinds = prev_kinds[first:last + 1]
+        n = len(kinds)
+        S2 = G.Sites(kinds, SI)
+        if list(cur.shape[:n]) != S2.dims or cur.ndim != n + 2:
+            failf('the segment has dimensions %s, expected sites %s and two outer legs' % (list(cur.shape), S2.dims))
+            return None
+        if abs(np.linalg.norm(cur) - nrm_prev) > 1e-8 * nrm_prev:
+            failf('norm of the segment %.10f, of the state it was cut from %.10f' % (np.linalg.norm(cur), nrm_prev))
+        keep_prev = list(range(first, last + 1))
+        keep_cur = list(range(n))
+        if prev_nvirt and first == 0:            # documented: the outer legs (and their recorded basis change) are kept
+            keep_prev.append(L0)
+            keep_cur.append(n)
+        if prev_nvirt and last == L0 - 1:
+            keep_prev.append(L0 + 1)
+            keep_cur.append(n + 1)
+        a, b = rdm_axes(prev_vec, keep_prev), rdm_axes(cur, keep_cur)
+        if a.shape != b.shape or np.max(np.abs(a - b)) > 1e-8:
+            failf('reduced density matrix of the segment on its sites%s differs from the one of the state it was cut from by %.2e' % (
+                ' and kept outer legs' if len(keep_cur) > n else '', np.max(np.abs(a - b)) if a.shape == b.shape else -1))
+        new = FRef(cur, kinds, SI, nvirt=2)
+        return new
+    if t == 'extract_enlarged_segment':
+        nf, nl = ex['new_first_last']
+        first, last = op['first'], op['last']
+        pk = op['parent']['sites']
+        kinds = [pk[i % len(pk)] for i in range(nf, first)] + list(prev_kinds) + [pk[i % len(pk)] for i in range(last + 1, nl + 1)]
+        T = np.moveaxis(prev_vec, -2, 0)          # (cL, p..., cR)
+        if kk + '_xL' in A:
+            T = np.tensordot(A[kk + '_xL'], T, axes=(-1, 0))
+        if kk + '_xR' in A:
+            T = np.tensordot(T, A[kk + '_xR'], axes=(-1, 0))
+        if o['bc'] == 'segment':
+            want = np.moveaxis(T, 0, -2)
+        else:
+            want = T.reshape(T.shape[1:-1]) if T.shape[0] == 1 and T.shape[-1] == 1 else T
+        if want.size != cur.size:
+            failf('the enlarged segment [%d, %d] has %d entries, expected %d' % (nf, nl, cur.size, want.size))
+            return None
+        w, c = want.reshape(-1), cur.reshape(-1)
+        d = np.linalg.norm(w / np.linalg.norm(w) - c / np.linalg.norm(c))
+        if d > 1e-7:
+            failf('the enlarged segment [%d, %d] (outer legs in the bases of the background state) is not the segment contracted with the '
+                  'background tensors A[%d..%d], B[%d..%d]: normalised difference %.2e, overlap %s' % (
+                      nf, nl, nf, first - 1, last + 1, nl, d, np.round(np.vdot(w, c) / np.linalg.norm(w) / np.linalg.norm(c), 8)))
+        if o['bc'] == 'segment':
+            return FRef(cur.reshape(want.shape), kinds, SI, nvirt=2)
+        return FRef(cur.reshape(want.shape), kinds, SI)
+    return None
+
+
+def obs_dense(A, kk, o, seg):
+    """the dense state an observation denotes (psi.norm included), in the layout of FRef; None + reason when it cannot
+    be formed"""
+    nrm = cplx(o['norm'])
+    if seg:
+        th = c07.segment_dense(A, kk, o)
+        if th is None:
+            return None, 'a stored tensor of the segment lost its form label / singular values'
+        return np.moveaxis(th, 0, -2), None
+    if o.get('grouped', 1) > 1 or 'ungrouped_dims' in o:
+        if 'ungrouped_error' in o:
+            return None, 'splitting the legs of the grouped state raises ' + o['ungrouped_error']
+        return A[kk + '_ungrouped'] * nrm, None
+    if 'full_error' in o:
+        return None, 'get_full_wavefunction raises ' + o['full_error']
+    return A[kk + '_full'] * nrm, None
+
+
+def sector_support(vec, S):
+    """set of total charges (tuples) carrying weight of a dense state on the sites of S (trailing virtual axes ignored)"""
+    if not S.mod:
+        return None
+    L = len(S.kinds)
+    w = np.abs(vec.reshape(tuple(S.dims) + (-1,))) ** 2
+    w = w.sum(axis=-1)
+    tot = S.total_charge()
+    out = set()
+    for idx in zip(*np.nonzero(w > 1e-18 * max(1e-300, w.max()))):
+        out.add(tuple(int(x) for x in tot[idx]))
+    return out
+
+
 def check_finite_case(ctx, case, r, A, key, D, SI, perm_lits, perm_meta):
     spec = case['state']
     ops = case['ops']
-    ref = FRef(D['vec'], spec['sites'], SI)
+    seg = spec['bc'] == 'segment'
+    bcname = 'segment' if seg else 'finite'
     obs = r['obs']
-    info = {'stream': 'finite', 'case': case}
-    method = spec['build']['method']
+    info = {'stream': case.get('stream', bcname), 'case': case}
+    method = spec['build']['method'] if not seg else 'extract_segment(%s) of a %s MPS' % (spec['segment'], spec['parent']['bc'])
+    if seg:
+        v0, why = obs_dense(A, key + '_0', obs[0], True)
+        if v0 is None:
+            ctx.fail('oracle', 'segment MPS as constructed: ' + why, info, match_key='C09:segment:constructor')
+            return
+        ref = FRef(v0, spec['sites'], SI, nvirt=2)
+    else:
+        ref = FRef(D['vec'], spec['sites'], SI)
 
     def fail(msg, step, mk=None):
         opn = ops[step - 1]['op'] if step > 0 else 'constructor'
         if opn == 'group_split' and mk is None and step >= 2 and ops[step - 2]['op'] == 'group_sites' and \
-                prev is not None and prev['L'] % ops[step - 2]['n'] == 1:
+                prev is not None and prev['L'] % ops[step - 2].get('n', 2) == 1:
             mk = K_GROUP
-        ctx.fail('oracle', '%s on a finite MPS (built by %s, stored forms before: %s; history %s): %s' % (
-            opn, method, prev_form, [o['op'] for o in ops[:step]], msg), info, match_key=mk or 'C09:finite:%s' % opn)
+        opts = {k_: v_ for k_, v_ in ops[step - 1].items() if k_ not in ('op', 'mat', 'other', 'ops', 'rdm_after', 'parent')} if step > 0 else {}
+        ctx.fail('oracle', '%s%s on a %s MPS (built by %s, stored forms before: %s; history %s): %s' % (
+            opn, opts if step > 0 else '', bcname, method, prev_form, [o['op'] for o in ops[:step]], msg), info, match_key=mk or 'C09:%s:%s' % (bcname, opn))
         state['dead'] = True
     prev_form = None
     prev = None
+    prev_kk = None
     state = {'dead': False}
+    fk = r.get('forks') or {}
+    for b in fk.get('bad', [])[:2]:
+        step = int(b['key'].rsplit('_', 1)[1]) if b['key'].rsplit('_', 1)[1].isdigit() else len(ops)
+        ctx.fail('oracle', '%s on a %s MPS: the %s was modified by the call or by the later operations on the returned object (%s)' % (
+            ops[step - 1]['op'] if 0 < step <= len(ops) else '?', bcname, b['label'], b['diff']), info,
+            match_key='C09:%s:%s:aliasing' % (bcname, ops[step - 1]['op'] if 0 < step <= len(ops) else '?'))
     for k, o in enumerate(obs):
         if state['dead']:
             return
+        prev_ref_vec = ref.vec
+        prev_kinds = list(ref.kinds)
+        prev_nvirt = ref.nvirt
         if k > 0:
             op = ops[k - 1]
-            Dother = G.build_data(op['other'], SI) if op['op'] == 'add' else None
+            Dother = G.build_data(op['other'], SI) if op['op'] == 'add' and 'other' in op else None
             ref.apply(op, Dother)
             if op['op'].startswith('apply_') and ref.raw_ratio < 1e-9:
                 # the documented result is the zero vector, which a normalised MPS cannot represent: nothing to compare
-                ctx.count('finite-zero-result', [spec, ops[:k]], nontrivial=False)
+                ctx.count(bcname + '-zero-result', [spec, ops[:k]], nontrivial=False)
                 return
-            if op['op'] == 'permute_sites' and prev is not None and k - 1 < len(r['extra']):
-                ex = r['extra'][k - 1]
+            if op['op'] == 'add' and np.linalg.norm(ref.vec) < 1e-9 * max(1., np.linalg.norm(prev_ref_vec)):
+                ctx.count(bcname + '-zero-result', [spec, ops[:k]], nontrivial=False)
+                return
+            ex = r['extra'][k - 1] if k - 1 < len(r['extra']) else {}
+            if op['op'] == 'permute_sites' and prev is not None and ex:
                 dims_b = prev['dims']
                 dims_a = o['dims'] if o else None
-                if dims_a is not None:
+                if dims_a is not None and not seg:
                     perm_lits.append(coq_lit((list(op['perm']), dims_b, [Nat(x) for x in ex['swaps']], dims_a)))
                     perm_meta.append(info)
                 # oracle for the bookkeeping: number of swaps = number of inversions
                 inv = sum(1 for a in range(len(op['perm'])) for b in range(a + 1, len(op['perm'])) if op['perm'][a] > op['perm'][b])
                 if len(ex['swaps']) != inv:
                     fail('permute_sites(%s) performed %d swaps, the permutation has %d inversions' % (op['perm'], len(ex['swaps']), inv), k)
+            if op['op'] == 'enlarge_chi' and prev is not None and o is not None and 'perms' in ex:
+                check_enlarge_perms(A, prev_kk, prev, '%s_%d' % (key, k), o, ex, True, lambda m_: fail(m_, k))
+            if op['op'] == 'gauge_total_charge' and ex and ref.S().mod:
+                check_gauge(op, ex, ref.S(), prev, lambda m_: fail(m_, k))
+            if op['op'] == 'spatial_inversion' and ex and ex.get('returns_self') is False:
+                fail('spatial_inversion does not return the MPS itself', k)
+            if op['op'] == 'extract_enlarged_segment' and ex:
+                if ex.get('same_object') and ex['new_first_last'] != [op['first'], op['last']]:
+                    fail('returned the segment itself although the requested range %s differs from [first, last]' % ex['new_first_last'], k)
         if o is None:
             continue
         kk = '%s_%d' % (key, k)
         S = ref.S()
         L = len(ref.kinds)
+        opn = ops[k - 1] if k > 0 else None
         if 'sanity' in o:
             fail('test_sanity raises ' + o['sanity'], k)
-        if o['dims'] != S.dims:
-            fail('site dimensions %s, expected %s' % (o['dims'], S.dims), k)
-            return
         nrm = cplx(o['norm'])
+        now_seg = o['bc'] == 'segment'
+        if ref.reseed:
+            # the documented result is not a function of the dense state alone (random unitaries / new outer bases):
+            # characterise it, then continue from the state of the run
+            cur, why = obs_dense(A, kk, o, now_seg)
+            if cur is None:
+                fail(why, k)
+                return
+            ex = r['extra'][k - 1] if k - 1 < len(r['extra']) else {}
+            newref = check_reseed(ref, prev_ref_vec, prev_kinds, prev_nvirt, opn, ex, cur, o, A, kk, SI, lambda m_: fail(m_, k))
+            if newref is None or state['dead']:
+                return
+            ref = newref
+            S = ref.S()
+            L = len(ref.kinds)
+        dims_o = o.get('ungrouped_dims', o['dims'])
+        if dims_o != S.dims:
+            fail('site dimensions %s, expected %s' % (dims_o, S.dims), k)
+            return
+        if ref.grouped > 1 and 'ungrouped_dims' in o and o['L'] != -(-L // ref.grouped):
+            fail('%d grouped sites for L=%d, n=%d' % (o['L'], L, ref.grouped), k)
         want = ref.vec.reshape(-1)
         scale = max(1e-300, np.linalg.norm(want))
-        opn = ops[k - 1] if k > 0 else None
         if ref.trunc:
-            # compression: overlap with the uncompressed state bounded by the reported truncation error
+            # compression / truncating split: overlap with the untruncated state bounded by the reported truncation error
             ex = r['extra'][k - 1]
-            v = A.get(kk + '_full')
+            v, why = obs_dense(A, kk, o, now_seg)
             if v is None:
-                fail('get_full_wavefunction raises %s' % o.get('full_error'), k)
+                fail(why, k)
                 return
+            v = v.reshape(-1) / nrm
             eps = ex['eps']
+            if v.shape != want.shape:
+                fail('the dense state has %d entries, expected %d' % (v.size, want.size), k)
+                return
             ov = abs(np.vdot(want, v)) / scale / max(1e-300, np.linalg.norm(v))
             angle = np.arccos(min(1., ov))
-            nsteps = max(1, L - 1)
+            nsteps = max(1, L - 1) if ref.trunc in (True, 'variational', 'split') else max(1, len(ex.get('swaps', [0])))
             bound = nsteps * np.arcsin(min(1., np.sqrt(max(0., eps) / nsteps)))
+            if ref.trunc == 'variational':       # eps is the LARGEST two-site truncation error of the last sweep
+                bound = 2 * nsteps * np.arcsin(min(1., np.sqrt(max(0., eps))))
             if angle > bound + 1e-6:
-                fail('compression changed the state by angle %.3e, the reported truncation error eps=%.3e allows at most %.3e' % (angle, eps, bound), k)
+                fail('truncation changed the state by angle %.3e, the reported truncation error eps=%.3e allows at most %.3e' % (angle, eps, bound), k)
             if eps < 1e-20 and angle > 1e-6:
                 fail('no truncation reported but the state changed', k)
-            if L == 2 and abs((1 - ov ** 2) - eps) > 1e-8:
+            if L == 2 and ref.trunc is True and abs((1 - ov ** 2) - eps) > 1e-8:
                 fail('single truncated bond: 1-|<psi|psi_c>|^2 = %.3e, reported eps = %.3e' % (1 - ov ** 2, eps), k)
             nn = abs(nrm) / scale
-            if nn > 1 + 1e-9 or nn ** 2 < (1 - eps) - 1e-7 - 2 * eps ** 2 * nsteps:
-                fail('norm after compression %.6f x old norm, inconsistent with eps=%.3e' % (nn, eps), k)
-            # continue with the compressed state as new reference
+            if nn > 1 + 1e-9 or nn ** 2 < (1 - eps) - 1e-7 - 2 * eps ** 2 * nsteps - (2 * eps * nsteps if ref.trunc == 'variational' else 0):
+                fail('norm after truncation %.6f x old norm, inconsistent with eps=%.3e' % (nn, eps), k)
+            if opn and 'chi_max' in (opn.get('trunc') or opn.get('trunc_par') or {}) and o.get('chi') and ref.trunc in (True, 'variational') and \
+                    max(o['chi']) > (opn.get('trunc') or opn.get('trunc_par'))['chi_max']:
+                fail('bond dimensions %s after compression with chi_max=%d' % (o['chi'], (opn.get('trunc') or opn.get('trunc_par'))['chi_max']), k)
+            # continue with the truncated state as new reference
             ref.vec = (v * nrm).reshape(ref.vec.shape)
             if eps > 1e-14:
                 ref.not_canonical = True       # truncation leaves the canonical form only approximately
@@ -465,10 +801,11 @@ def check_finite_case(ctx, case, r, A, key, D, SI, perm_lits, perm_meta):
             fail('psi.norm = %r, the dense state has norm %r' % (nrm, scale), k)
         if ref.norm_in_tensors and abs(abs(nrm) - ref.frozen_norm) > 1e-8 * max(1., ref.frozen_norm):
             fail('psi.norm = %r changed although canonicalize=False (norm before %r)' % (nrm, ref.frozen_norm), k)
-        if 'full_error' in o:
-            fail('get_full_wavefunction raises ' + o['full_error'], k)
+        v, why = obs_dense(A, kk, o, now_seg)
+        if v is None:
+            fail(why, k)
             return
-        v = A[kk + '_full'] * nrm
+        v = v.reshape(-1)
         d = np.linalg.norm(v - want) if v.shape == want.shape else 1e9
         if ref.sign_free:
             d2 = np.linalg.norm(v + want) if v.shape == want.shape else 1e9
@@ -477,26 +814,40 @@ def check_finite_case(ctx, case, r, A, key, D, SI, perm_lits, perm_meta):
                 want = -want
                 d = d2
         if d > TOL * scale:
-            fail('psi.norm * full wavefunction differs from the documented dense result by %.2e (relative), overlap/|ref|^2 = %s' % (
+            fail('psi.norm * %s differs from the documented dense result by %.2e (relative), overlap/|ref|^2 = %s' % (
+                'U_L.theta.V_R (dense state of the segment in the original bases of its outer legs)' if now_seg else 'full wavefunction',
                 d / scale, np.vdot(want, v) / scale ** 2 if v.shape == want.shape else 'n/a'), k)
             return
         Bs, Ss, forms = c07.stored(A, kk, o)
-        if all(f is not None for f in forms) and all(s is not None for s in Ss) and not getattr(ref, 'not_canonical', False):
-            th = G.explicit_theta(Bs, Ss, forms, 0, L, True).reshape(-1) * nrm
-            if th.shape != want.shape or np.linalg.norm(th - want) > TOL * scale:
-                fail('stored tensors contracted according to the recorded forms %s differ from the dense state by %.2e' % (
-                    o['form'], np.linalg.norm(th - want) / scale if th.shape == want.shape else -1), k)
-                return
-            if o.get('norm_test', 0) > 1e-7 and not (opn and opn['op'] == 'enlarge_chi'):
+        canon_ok = all(f is not None for f in forms) and all(s is not None for s in Ss) and not getattr(ref, 'not_canonical', False)
+        if canon_ok and ref.grouped == 1 and 'ungrouped_dims' not in o:
+            if not now_seg:
+                th = G.explicit_theta(Bs, Ss, forms, 0, L, True).reshape(-1) * nrm
+                if th.shape != want.shape or np.linalg.norm(th - want) > TOL * scale:
+                    fail('stored tensors contracted according to the recorded forms %s differ from the dense state by %.2e' % (
+                        o['form'], np.linalg.norm(th - want) / scale if th.shape == want.shape else -1), k)
+                    return
+            if o.get('norm_test', 0) > 1e-7 and not ref.zero_S:
                 fail('norm_test() = %.2e' % o['norm_test'], k)
             vt = ref.vec / np.linalg.norm(ref.vec)
-            for cut in range(1, L):
-                m = c07.cmp_spec(Ss[cut], c07.dense_schmidt(vt, cut))
-                if m:
-                    fail('stored _S[%d] are not the Schmidt coefficients (%s)' % (cut, m), k)
-                    break
+            if now_seg:
+                vt = np.moveaxis(vt, -2, 0)           # (cL, p..., cR): the outer legs are orthonormal Schmidt bases
+                for cut in range(0, L + 1):
+                    dl = int(np.prod(vt.shape[:1 + cut]))
+                    sd = np.linalg.svd(vt.reshape(dl, -1), compute_uv=False)
+                    m = c07.cmp_spec(Ss[cut], sd / np.linalg.norm(sd))
+                    if m:
+                        fail('stored _S[%d] of the segment are not the Schmidt coefficients at that cut (%s)' % (cut, m), k)
+                        break
+            else:
+                for cut in range(1, L):
+                    m = c07.cmp_spec(Ss[cut], c07.dense_schmidt(vt, cut))
+                    if m:
+                        fail('stored _S[%d] are not the Schmidt coefficients (%s)' % (cut, m), k)
+                        break
         prev_form = o['form']
         prev = o
+        prev_kk = kk
     return
 
 
@@ -511,6 +862,7 @@ class IRef:
         self.SI = SI
         self.norm = 1.0
         self._tm = None
+        self.reseed = None
 
     def tm(self):
         if self._tm is None:
@@ -560,13 +912,14 @@ class IRef:
         eta0 = abs(self.tm().eta)
         self._tm = None
         self.raw_ratio = 1.
+        self.reseed = None
         if t == 'roll_mps_unit_cell':
-            k = op['shift']
+            k = op.get('shift', 1)
             self.Ms = [self.Ms[(j - k) % L] for j in range(L)]
             self.kinds = [self.kinds[(j - k) % L] for j in range(L)]
         elif t == 'enlarge_mps_unit_cell':
-            self.Ms = self.Ms * op['factor']
-            self.kinds = self.kinds * op['factor']
+            self.Ms = self.Ms * op.get('factor', 2)
+            self.kinds = self.kinds * op.get('factor', 2)
         elif t == 'spatial_inversion':
             self.Ms = [np.transpose(M, (2, 1, 0)) for M in self.Ms[::-1]]
             self.kinds = self.kinds[::-1]
@@ -587,6 +940,19 @@ class IRef:
                 return                                # the documented result is the zero state
             if not op.get('renormalize', False):
                 self.norm = self.norm * np.sqrt(abs(self.tm().eta) / eta0)
+        elif t == 'apply_product_op':
+            lst = [op['single']] if 'single' in op else op['ops']
+            for i in range(L):                        # documented: ops[i % len(ops)] on site i of every unit cell
+                o = lst[i % len(lst)]
+                if o == 'Id':
+                    continue
+                m = S.op(i, o) if isinstance(o, str) else cplx_mat(o)
+                self.Ms[i] = np.einsum('pq,aqb->apb', m, self.Ms[i])
+            self.raw_ratio = self.ratio(eta0)
+            if not (self.raw_ratio > 1e-12):
+                return
+            if not op.get('renormalize', False):
+                self.norm = self.norm * np.sqrt(abs(self.tm().eta) / eta0)
         elif t == 'apply_local_term':
             # documented: the term (indices shifted by i_offset) is applied in every unit cell; here the shifted sites
             # lie within L consecutive sites and the number of fermionic operators is even, so the terms of different
@@ -604,29 +970,42 @@ class IRef:
             self.raw_ratio = self.ratio(eta0)
             if not (self.raw_ratio > 1e-12):
                 return                                # the documented result is the zero state
-            if not op.get('renormalize', False):
-                self.norm = self.norm * np.sqrt(abs(self.tm().eta) / eta0)
+            fac = np.sqrt(abs(self.tm().eta) / eta0)
+            if not op.get('canonicalize', True):
+                self.pending = getattr(self, 'pending', 1.) * fac      # the change of norm stays in the tensors
+            elif not op.get('renormalize', False):
+                self.norm = self.norm * fac
+        elif t == 'canonical_form':
+            if getattr(self, 'pending', None) is not None:
+                if not op.get('renormalize', True):
+                    self.norm = self.norm * self.pending
+                self.pending = None
         elif t == 'swap_sites':
             i = op['i']
-            pa, pb = S.par[i % L], S.par[(i + 1) % L]
-            sg = 1 - 2 * np.outer(pa, pb) if op.get('swap_op', 'auto') == 'auto' else np.ones((len(pa), len(pb)))
+            sg = swap_factor(S.par[i % L], S.par[(i + 1) % L], swap_how(op))
             self.two_site(i, lambda th: np.transpose(th * sg[None, :, :, None], (0, 2, 1, 3)))
             a, b = i % L, (i + 1) % L
             self.kinds[a], self.kinds[b] = self.kinds[b], self.kinds[a]
         elif t == 'permute_sites':
             perm = list(op['perm'])
-            # plain bubble sort on the reference (any decomposition into adjacent transpositions gives the same state)
+            how = swap_how(op)
+            # plain bubble sort on the reference (every inverted pair is exchanged exactly once)
             done = False
             while not done:
                 done = True
                 for i in range(L - 1):
                     if perm[i] > perm[i + 1]:
                         S2 = self.S()
-                        sg = 1 - 2 * np.outer(S2.par[i], S2.par[i + 1])
+                        sg = swap_factor(S2.par[i], S2.par[i + 1], how)
                         self.two_site(i, lambda th: np.transpose(th * sg[None, :, :, None], (0, 2, 1, 3)))
                         self.kinds[i], self.kinds[i + 1] = self.kinds[i + 1], self.kinds[i]
                         perm[i], perm[i + 1] = perm[i + 1], perm[i]
                         done = False
+        elif t in ('compress', 'compress_svd', 'perturb'):
+            self.reseed = t
+        elif t == 'group_split' and ('trunc' not in op or op.get('trunc_class') == 'truncating'):
+            self.reseed = t
+        # convert_form, group_sites+group_split, enlarge_chi, gauge_total_charge, copy, get_grouped_mps, compute_K: unchanged
         self._tm = None
 
 
@@ -709,22 +1088,31 @@ def gen_infinite_ops(rng, nrng, kinds, SI, nops, real_state=False):
 APPLY_OPS = ('apply_local_op', 'apply_product_op', 'apply_local_term', 'add')       # can produce the zero vector
 
 
-def documented_zero(case, D, SI, step):
+def documented_zero(case, D, SI, step, v0=None):
     """is the documented result of the operator application case['ops'][step] (dense / explicit unit-cell reference
     of the history before it) the zero vector?  False when the reference cannot be reconstructed (after a compression
-    the reference continues from the compressed state of the run)."""
+    the reference continues from the compressed state of the run).  v0: dense state of a segment as constructed."""
     spec = case['state']
     ops = case['ops']
-    if any(o2['op'] in ('compress', 'compress_svd') for o2 in ops[:step]):
+    if any(o2['op'] in ('compress', 'compress_svd', 'perturb', 'extract_segment', 'extract_enlarged_segment') or o2.get('trunc_class') == 'truncating'
+           or (o2['op'] == 'group_split' and 'trunc' not in o2) for o2 in ops[:step]):
         return False
-    if spec['bc'] == 'finite':
-        fr = FRef(D['vec'], spec['sites'], SI)
+
+    def other(o2):
+        return G.build_data(o2['other'], SI) if o2['op'] == 'add' and 'other' in o2 else None
+    if spec['bc'] in ('finite', 'segment'):
+        if spec['bc'] == 'segment':
+            if v0 is None:
+                return False
+            fr = FRef(v0, spec['sites'], SI, nvirt=2)
+        else:
+            fr = FRef(D['vec'], spec['sites'], SI)
         for o2 in ops[:step]:
-            fr.apply(o2, G.build_data(o2['other'], SI) if o2['op'] == 'add' else None)
+            fr.apply(o2, other(o2))
         n0 = np.linalg.norm(fr.vec)
         o3 = dict(ops[step])
         o3['renormalize'] = False
-        fr.apply(o3, G.build_data(o3['other'], SI) if o3['op'] == 'add' else None)
+        fr.apply(o3, other(o3))
         return bool(np.linalg.norm(fr.vec) < 1e-9 * max(1., n0))
     ir = IRef(D['Ms'], spec['sites'], SI)
     for o2 in ops[:step + 1]:
@@ -734,14 +1122,72 @@ def documented_zero(case, D, SI, step):
     return False
 
 
+def ms_from_obs(A, kk, o):
+    """explicit unit-cell tensors in right-canonical form from the stored tensors and their form labels"""
+    Bs, Ss, forms = c07.stored(A, kk, o)
+    if any(f is None for f in forms) or any(x is None for x in Ss):
+        return None
+    return [G.explicit_theta(Bs, Ss, forms, i, 1, False, eL=0, eR=2) for i in range(o['L'])]
+
+
+def mixed_tm_spectrum(Ms, Ns):
+    """eigenvalues of the transfer matrix of one unit cell between ket tensors Ms and bra tensors Ns"""
+    T = None
+    for M, N in zip(Ms, Ns):
+        E = np.einsum('apb,cpd->acbd', M, N.conj()).reshape(M.shape[0] * N.shape[0], M.shape[2] * N.shape[2])
+        T = E if T is None else T @ E
+    return np.linalg.eigvals(T)
+
+
+def check_compute_K(ref, op, ex, A, kk, failf):
+    """compute_K(perm): ov is documented as the eigenvalue of the mixed transfer matrix <psi|T|psi> per L sites between the
+    state and its permuted copy; for a state that is invariant under the permutation |ov| = 1, W = s^2 exp(iK) carries the
+    squared Schmidt values of bond 0 and sum(W) = exp(i expected_mean_k), U is unitary"""
+    perm = ex.get('lat_perm', op['perm'])
+    c = IRef(ref.Ms, ref.kinds, ref.SI)
+    c.apply({'op': 'permute_sites', 'perm': list(perm), 'swap_op': op.get('swap_op', 'auto')})
+    ev = mixed_tm_spectrum(c.Ms, ref.Ms)
+    eta = abs(ref.tm().eta)
+    ev = ev / eta
+    ov = cplx(ex['ov'])
+    if 'lat_perm' in ex and sorted(perm) != list(range(len(ref.Ms))):
+        failf('the lattice translation gives %s, not a permutation' % perm)
+    if np.min(np.abs(ev - ov)) > 1e-6 and np.min(np.abs(ev - np.conj(ov))) > 1e-6:
+        failf('ov = %r is not an eigenvalue of the mixed transfer matrix between the state and its permuted copy (closest %r)' % (
+            ov, ev[int(np.argmin(np.abs(ev - ov)))]))
+    if not ref.S().mod and abs(abs(ov) - np.max(np.abs(ev))) > 1e-6:
+        failf('|ov| = %.8f, the dominant eigenvalue of the mixed transfer matrix has modulus %.8f' % (abs(ov), np.max(np.abs(ev))))
+    W = A[kk + '_K_W']
+    U = A[kk + '_K_U']
+    s0 = A[kk + '_K_S0']
+    if abs(np.sum(np.abs(W)) - 1) > 1e-8:
+        failf('sum |W| = %.10f, documented normalisation sum(S^2) = 1' % np.sum(np.abs(W)))
+    if op.get('invariant'):
+        if abs(abs(ov) - 1) > 1e-7:
+            failf('the state is invariant under the permutation but |ov| = %.10f' % abs(ov))
+        a = np.sort(np.abs(W))[::-1]
+        b = np.sort(s0 ** 2)[::-1]
+        b = b / b.sum()
+        if a.shape != b.shape or np.max(np.abs(a - b)) > 1e-7:
+            failf('|W| = %s are not the squared Schmidt values %s of bond 0' % (np.round(a, 8).tolist(), np.round(b, 8).tolist()))
+        k = op.get('expected_mean_k', 0.)
+        if abs(np.sum(W) - np.exp(1j * k)) > 1e-6:
+            failf('sum(W) = %r, documented exp(i expected_mean_k) = %r' % (np.sum(W), np.exp(1j * k)))
+        if U.shape[0] != U.shape[1] or np.linalg.norm(U @ U.conj().T - np.eye(len(U))) > 1e-6:
+            failf('U is not unitary (deviation %.2e)' % (np.linalg.norm(U @ U.conj().T - np.eye(len(U))) if U.shape[0] == U.shape[1] else -1))
+    if ex['eps'] > 1e-12 and 'trunc_par' not in op:
+        failf('truncation error %.3e reported for swaps of a state with chi <= 100' % ex['eps'])
+
+
 def check_infinite_case(ctx, case, r, A, key, D, SI, perm_lits, perm_meta):
     spec = case['state']
     ops = case['ops']
     ref = IRef(D['Ms'], spec['sites'], SI)
     obs = r['obs']
-    info = {'stream': 'infinite', 'case': case}
+    info = {'stream': case.get('stream', 'infinite'), 'case': case}
     prev_form = None
     prev = None
+    prev_kk = None
     state = {'dead': False}
 
     def fail(msg, step, mk=None):
@@ -759,41 +1205,118 @@ def check_infinite_case(ctx, case, r, A, key, D, SI, perm_lits, perm_meta):
             nonunitary = 'mat' in opx and not is_unitary(cplx_mat(opx['mat']))
             if real_state and first_complex and nonunitary and opx.get('n') == 1:
                 key_ = K_CPLX
-        ctx.fail('oracle', '%s on an infinite MPS (stored forms before: %s; history %s): %s' % (
-            opn, prev_form, [o['op'] for o in ops[:step]], msg), info, match_key=key_)
+        opts = {k_: v_ for k_, v_ in ops[step - 1].items() if k_ not in ('op', 'mat', 'other', 'ops', 'rdm_after', 'parent')} if step > 0 else {}
+        ctx.fail('oracle', '%s%s on an infinite MPS (stored forms before: %s; history %s): %s' % (
+            opn, opts if step > 0 else '', prev_form, [o['op'] for o in ops[:step]], msg), info, match_key=key_)
         state['dead'] = True
+    fk = r.get('forks') or {}
+    for b in fk.get('bad', [])[:2]:
+        step = int(b['key'].rsplit('_', 1)[1]) if b['key'].rsplit('_', 1)[1].isdigit() else len(ops)
+        opn_ = ops[step - 1]['op'] if 0 < step <= len(ops) else '?'
+        ctx.fail('oracle', '%s on an infinite MPS: the %s was modified by the call or by the later operations on the returned object (%s)' % (
+            opn_, b['label'], b['diff']), info, match_key='C09:infinite:%s:aliasing' % opn_)
     for k, o in enumerate(obs):
         if k > 0:
-            ref.apply(ops[k - 1])
+            old_ref = ref
             op = ops[k - 1]
+            ex = r['extra'][k - 1] if k - 1 < len(r['extra']) else {}
+            if op['op'] == 'compute_K' and ex:
+                check_compute_K(ref, op, ex, A, '%s_%d' % (key, k), lambda m_: fail(m_, k))
+            if op['op'] == 'extract_segment':
+                if o is not None:
+                    check_inf_segment(ref, op, o, A, '%s_%d' % (key, k), lambda m_: fail(m_, k))
+                return
+            ref.apply(op)
             if not (ref.raw_ratio > 1e-9):
                 ctx.count('infinite-zero-result', [spec, ops[:k]], nontrivial=False)    # nothing to compare with
                 return
-            if op['op'] == 'permute_sites' and prev is not None and o is not None and k - 1 < len(r['extra']):
-                ex = r['extra'][k - 1]
+            if op['op'] == 'permute_sites' and prev is not None and o is not None and ex:
                 perm_lits.append(coq_lit((list(op['perm']), prev['dims'], [Nat(x) for x in ex['swaps']], o['dims'])))
                 perm_meta.append(info)
+            if op['op'] == 'enlarge_chi' and prev is not None and o is not None and 'perms' in ex:
+                check_enlarge_perms(A, prev_kk, prev, '%s_%d' % (key, k), o, ex, False, lambda m_: fail(m_, k))
+            if op['op'] == 'gauge_total_charge' and ex and ref.S().mod:
+                check_gauge(op, ex, ref.S(), prev, lambda m_: fail(m_, k))
+            if op['op'] == 'apply_local_op' and ex and 'warned' in ex and ('understood_infinite' in op or op.get('ui_default')):
+                want_warn = not op.get('understood_infinite', False)
+                if bool(ex['warned']) != want_warn:
+                    fail('understood_infinite=%s: %s' % (op.get('understood_infinite', 'default (False)'),
+                                                         'no warning about the parallel application in every unit cell' if want_warn else 'warned although suppressed'), k)
         if o is None:
             continue
         kk = '%s_%d' % (key, k)
-        L = len(ref.kinds)
-        S = ref.S()
         if 'sanity' in o:
             fail('test_sanity raises ' + o['sanity'], k)
+        nrm = cplx(o['norm'])
+        if ref.reseed:
+            Ms = ms_from_obs(A, kk, o)
+            if Ms is None:
+                fail('a stored tensor lost its form label / singular values', k)
+                return
+            new = IRef(Ms, ref.kinds, SI)
+            new.norm = ref.norm
+            segs = ops[k - 1].get('rdm_after') or case['want']['rdm']
+            eps = r['extra'][k - 1].get('eps', 0.) if k - 1 < len(r['extra']) else 0.
+            opx = ops[k - 1]
+            if ref.reseed != 'perturb':
+                worst = 0.
+                for seg_ in segs[:6]:
+                    a_, b_ = ref.tm().rdm(seg_), new.tm().rdm(seg_)
+                    if a_.shape != b_.shape:
+                        fail('site dimensions changed', k)
+                        return
+                    worst = max(worst, float(np.sum(np.linalg.svd(a_ - b_, compute_uv=False))))
+                if eps < 1e-20 and worst > 1e-6:
+                    fail('no truncation reported but the reduced density matrices changed by %.2e (trace norm)' % worst, k)
+                if worst > 20 * np.sqrt(max(eps, 0.) * len(Ms)) + 1e-6:
+                    fail('reduced density matrices changed by %.3e (trace norm), reported truncation error eps=%.3e' % (worst, eps), k)
+                tp = opx.get('trunc') or {}
+                if 'chi_max' in tp and o.get('chi') and max(o['chi']) > tp['chi_max']:
+                    fail('bond dimensions %s after truncation with chi_max=%d' % (o['chi'], tp['chi_max']), k)
+            ref = new
+        L = len(ref.kinds)
+        S = ref.S()
         if o['dims'] != S.dims:
             fail('site dimensions %s, expected %s' % (o['dims'], S.dims), k)
-        nrm = cplx(o['norm'])
         if abs(abs(nrm) - ref.norm) > 1e-6 * max(1, ref.norm):
             fail('psi.norm = %r, expected %r' % (nrm, ref.norm), k)
         segs = (ops[k - 1].get('rdm_after') if k > 0 else None) or case['want']['rdm']
+        if getattr(ref, 'pending', None) is not None:
+            prev_form, prev, prev_kk = o['form'], o, kk          # not canonical: nothing else to compare
+            continue
         if not state['dead']:
             c07.seg_rdm_check(ctx, A, kk, o, segs, ref.tm().rdm, False, info, fail, k)
-        if not state['dead'] and o.get('norm_test', 0) > 1e-6 and not (k > 0 and ops[k - 1]['op'] == 'enlarge_chi'):
+        zero_S = any(o2['op'] == 'enlarge_chi' for o2 in ops[:k]) and not any(
+            o2['op'] in ('canonical_form', 'compress', 'compress_svd') for o2 in ops[:k])
+        if not state['dead'] and o.get('norm_test', 0) > 1e-6 and not zero_S and not (k > 0 and ops[k - 1]['op'] in ('compress', 'compress_svd', 'perturb', 'group_split')):
             fail('norm_test() = %.2e' % o['norm_test'], k)
         if state['dead']:
             return
         prev_form = o['form']
         prev = o
+        prev_kk = kk
+
+
+def check_inf_segment(ref, op, o, A, kk, failf):
+    """extract_segment(first, last) of an infinite MPS: the segment tensor with its outer Schmidt legs has the reduced density
+    matrix of the infinite state on the sites first..last and its outer singular values are the Schmidt values of those bonds"""
+    first, last = op['first'], op['last']
+    th = c07.segment_dense(A, kk, o)
+    if th is None:
+        failf('a stored tensor of the segment lost its form label / singular values')
+        return
+    L = len(ref.kinds)
+    dims = [ref.S().dims[i % L] for i in range(first, last + 1)]
+    if list(th.shape[1:-1]) != dims:
+        failf('segment sites have dimensions %s, expected %s' % (list(th.shape[1:-1]), dims))
+        return
+    if abs(np.linalg.norm(th) - ref.norm) > 1e-7 * max(1., ref.norm):
+        failf('norm of the segment %.10f, psi.norm of the infinite state %.10f' % (np.linalg.norm(th), ref.norm))
+    a = rdm_axes(th, list(range(1, th.ndim - 1)))
+    b = ref.tm().rdm(list(range(first, last + 1)))
+    if a.shape != b.shape or np.max(np.abs(a - b)) > 1e-7:
+        failf('reduced density matrix of the segment on its sites differs from the one of the infinite state on sites %d..%d by %.2e' % (
+            first, last, np.max(np.abs(a - b)) if a.shape == b.shape else -1))
 
 
 def inf_segs(rng, L, dims):
@@ -806,6 +1329,36 @@ def inf_segs(rng, L, dims):
 
 
 # ------------------------------------------------------------------------------------------------ main
+
+def run_chunks(script, cases, cov_names, nchunks=None):
+    """as c07.run_chunks, plus the union of the executed lines of the recorded methods and the merged option log"""
+    n = nchunks or min(common.NPROC, max(1, len(cases) // 4))
+    chunks = [cases[i::n] for i in range(n)]
+    res = common.run_impl_parallel(script, [{'kind': 'cases', 'cases': ch, 'cov_names': cov_names} for ch in chunks if ch])
+    out = [None] * len(cases)
+    errs, lines, optlog = [], {}, {}
+    ci = 0
+    for k, ch in enumerate(chunks):
+        if not ch:
+            continue
+        r, err = res[ci]
+        ci += 1
+        if err:
+            errs.append(err)
+            continue
+        A = np.load(r['npz'])
+        A = {key: A[key] for key in A.files}
+        for j, x in enumerate(r['results']):
+            out[k + j * n] = (x, A, 'c%d' % j)
+        for name, ls in (r.get('cov_lines') or {}).items():
+            lines.setdefault(name, set()).update(ls)
+        for m, row in (r.get('optlog') or {}).items():
+            for pn, col in row.items():
+                tgt = optlog.setdefault(m, {}).setdefault(pn, {})
+                for v, c in col.items():
+                    tgt[v] = tgt.get(v, 0) + c
+    return out, errs, lines, optlog
+
 
 def main(ctx):
     rng = ctx.rng
@@ -872,7 +1425,15 @@ def main(ctx):
             op['rdm_after'] = inf_segs(rng, Lc, dims)
         cases.append({'state': spec, 'ops': ops, 'want': {'rdm': inf_segs(rng, L, dims)}})
         datas.append(D)
-    results, errs = c07.run_chunks(script, cases)
+    # every option class of every transformation method on every boundary condition (stratified; own generators)
+    xrng = _random.Random(ctx.seed * 7919 + 913)
+    xnrng = np.random.default_rng(ctx.seed * 7919 + 914)
+    for case, D in c09_ext.gen_cases(xrng, xnrng, SI, reps=ctx.pick(1, 6) * mult):
+        cases.append(case)
+        datas.append(D)
+    refl, stm = c09_cover.reflect()
+    tnames = c09_cover.trace_names(refl)
+    results, errs, cov_lines, optlog = run_chunks(script, cases, tnames)
     for e in errs:
         ctx.fail('correspondence', 'implementation runner failed: ' + e[-600:], None)
     perm_lits, perm_meta, form_lits, form_meta = [], [], [], []
@@ -883,7 +1444,7 @@ def main(ctx):
         r, A, key = res
         spec = case['state']
         bc = spec['bc']
-        info = {'stream': bc, 'case': case}
+        info = {'stream': case.get('stream', bc), 'case': case}
         for o in case['ops']:
             hist[bc + '/' + o['op']] = hist.get(bc + '/' + o['op'], 0) + 1
             if o['op'] == 'apply_local_term':
@@ -906,7 +1467,10 @@ def main(ctx):
                              e['type'], e['msg'][:200]), info, match_key='C09:%s:%s:JW-refused' % (bc, opx['op']))
             elif any(m in e['msg'] for m in REFUSALS):
                 ctx.count(bc + '-refused', [spec, case['ops']], nontrivial=False)     # explicit, documented refusal
-            elif opx['op'] in APPLY_OPS and documented_zero(case, D, SI, e['step']):
+            elif opx['op'] == 'gauge_total_charge' and e['type'] == 'NotImplementedError' and bc == 'segment':
+                ctx.count(bc + '-refused', [spec, case['ops']], nontrivial=False)     # explicit refusal: segment with recorded boundaries
+            elif opx['op'] in APPLY_OPS and documented_zero(case, D, SI, e['step'],
+                                                            v0=obs_dense(A, key + '_0', r['obs'][0], True)[0] if bc == 'segment' else None):
                 # the documented result of the operator application / linear combination is the zero vector, which no (normalised) MPS
                 # represents: the property says nothing about it, and tenpy documents no particular exception for it
                 # ('destroys state', ZeroDivisionError in canonical_form, ArpackError 'Starting vector is zero' of the
@@ -915,7 +1479,7 @@ def main(ctx):
             elif 'destroys state' in e['msg'] or e['type'] == 'ZeroDivisionError':
                 # legitimate only when the documented result is the zero vector
                 ok = False
-                if any(o2['op'] in ('compress', 'compress_svd') for o2 in case['ops'][:e['step']]):
+                if any(o2['op'] in ('compress', 'compress_svd', 'perturb') or o2.get('trunc_class') == 'truncating' for o2 in case['ops'][:e['step']]):
                     ok = True      # (reference not reconstructible here: the compressed state is taken from the run)
                 if not ok:
                     ctx.fail('oracle', '%s raised %s: %s although the result is not the zero vector' % (opx['op'], e['type'], e['msg'][:150]), info,
@@ -934,15 +1498,16 @@ def main(ctx):
                 ctx.fail('oracle', '%s raised %s: %s on a valid %s MPS (history %s)' % (opx['op'], e['type'], e['msg'][:200], bc,
                                                                                   [o['op'] for o in case['ops'][:e['step']]]),
                          info, match_key='C09:%s:%s:raises' % (bc, opx['op']))
-        if bc == 'finite':
+        if bc in ('finite', 'segment'):
             check_finite_case(ctx, case, r, A, key, D, SI, perm_lits, perm_meta)
         else:
             check_infinite_case(ctx, case, r, A, key, D, SI, perm_lits, perm_meta)
         chis = [max(o['chi']) for o in r['obs'] if o and o.get('chi')]
-        ctx.count('fermi-terms' if case.get('fermi') else bc, [spec, case['ops']], nontrivial=max(chis + [1]) > 1,
-                  sample={'sites': spec['sites'], 'build': spec['build']['method'], 'ops': [o['op'] for o in case['ops']],
-                          'form0': r['obs'][0]['form'], 'chi0': r['obs'][0].get('chi')})
-        for lit in c07.form_cases(case, r, A, key, bc != 'infinite'):
+        ctx.count('fermi-terms' if case.get('fermi') else case.get('stream', bc), [spec, case['ops']], nontrivial=max(chis + [1]) > 1,
+                  sample={'sites': spec['sites'], 'build': spec['build']['method'] if 'build' in spec else 'segment %s of %s' % (spec['segment'], spec['parent']['bc']),
+                          'ops': [o['op'] for o in case['ops']], 'form0': r['obs'][0]['form'], 'chi0': r['obs'][0].get('chi')})
+        fcase = dict(case, ops=[dict({'shift': 1, 'factor': 2}, **o) if o['op'] in ('roll_mps_unit_cell', 'enlarge_mps_unit_cell') else o for o in case['ops']])
+        for lit in c07.form_cases(fcase, r, A, key, bc != 'infinite'):
             if isinstance(lit, tuple):
                 form_lits.append(lit[1])
                 form_meta.append(info)
@@ -962,6 +1527,12 @@ def main(ctx):
             ctx.count(name, len(ctx._distinct), nontrivial=False)
     ctx.cov['traces_validated_against_impl'] = len(perm_lits) + len(form_lits) + n_addblocks + n_swapsign
     ctx.cov['input_distribution'] = hist
+    ctx.cov['line_table (statements of the anchored transformation methods executed in the runner processes)'] = c09_cover.line_table(stm, cov_lines, tnames)
+    orows, omissing = c09_cover.option_coverage(refl, optlog)
+    ctx.cov['option_table (public name x parameter -> value classes the calls received: count)'] = orows
+    for x in omissing:
+        ctx.fail('correspondence', 'coverage of the MPS transformation methods (public names and parameters of the anchored classes read from the '
+                 'source): ' + x, {'stream': 'coverage', 'what': x})
     ctx.assumptions += [
         'C09 model: permutation loop and structure operations on labels/exponents/dimensions; block structure of add (Model/MpsAdd.v, stream add-blocks: integer tensors, trivial charges, canonical_form_finite stubbed); other tensor contents, SVD splits, compression and the canonicalisation inside add are oracle-checked only',
         'C09 oracle: dense states in the stored local basis (site operator matrices taken from the site classes, which C12 checks); fermionic signs of site permutations computed from occupation parities; '
